@@ -233,7 +233,11 @@ def to_val(case):
 
 
 def from_val(case, v):
-    model = [v[0], v[1], v[2]]
+    from harness import core
+    if v[0] == -1:
+        model = core.decode_err([core.ERR_TAG, v[1], v[2]])
+    else:
+        model = [v[0], v[1], v[2]]
     tab = expected_table(case)
     if tab is None:
         return model
